@@ -1,29 +1,12 @@
 /- Model driver for C06: the Float instantiation of the hand-written model `FinVerif.Model.C06`. -/
-import FinVerif.Driver.C06Parse
-import FinVerif.Model.C06
+import FinVerif.Driver.C06Common
 open FinVerif FinVerif.Driver FinVerif.Driver.C06P FinVerif.Spec.C06 FinVerif.Model.C06
 
-def gSmall : Float := 1e-10
-
-def showRows (rows : List (Row Float)) : String :=
-  " ".intercalate (rows.map (fun r => showFloats [r.rate, r.amount, r.df, r.pv, r.cum]))
+/-- `g_small` of utils/global_vars.py (the generated `swap_swap_rate` carries the same literal; `swapRate_is_generated`) -/
+def gSmall : Float := 1e-12
 
 def showSt (isPay : Bool) (st : LoopSt Float) : String :=
   showFloat (applySign isPay st.pv) ++ " " ++ showRows st.rows
-
-/-- float periods: `start stop pay yf indexAlpha notional` -/
-def pFPeriod : P (Period Float × Float × Float) := do
-  let p ← pPeriod; let ia ← pFloat; let n ← pFloat
-  pure (p, ia, n)
-
-def idxOf (dfI : Int → Float) (fps : List (Period Float × Float × Float)) : IndexCurve Float :=
-  { df := dfI,
-    yf := fun a b => match fps.find? (fun e => e.1.start == a && e.1.stop == b) with
-      | some e => e.2.1 | none => nan }
-
-def pOptFloat : P (Option Float) := do
-  let has ← pBool; let v ← pFloat
-  pure (if has then some v else none)
 
 def opGen : P String := do
   let lag ← pInt
@@ -99,6 +82,43 @@ def opFra : P String := do
   let df ← pCurve; let dfI ← pCurve
   pure (showFloat (fraValue df dfI start mat yf k n payFixed vd))
 
+/-- `EQL isPay strike qty hasCur cur vd n (start stop pay yf ia)* df dfI dvd` → value and the rows of the cached tables -/
+def opEql : P String := do
+  let isPay ← pBool; let strike ← pFloat; let qty ← pFloat; let cur ← pOptFloat; let vd ← pInt
+  let eps ← pList pEPeriod
+  let df ← pCurve; let dfI ← pCurve; let dvd ← pCurve
+  let leg : EqLeg Float := { periods := eps.map (·.1), strike := strike, qty := qty, isPay := isPay }
+  let idx := idxOfTable dfI (eps.map (fun e => (e.1.start, e.1.stop, e.2)))
+  let st := eqState df idx dvd cur leg vd
+  pure (showFloat (applySign isPay st.pv) ++ " " ++ showEqRows st.rows)
+
+/-- `EQS eqIsPay strike qty spread eqFreq rateFreq hasCur cur hasFf ff vd n (eq periods)* m (rate periods)* df dfI dvd`
+→ `value eqLeg rateLeg k notional_array…` or the error of `_fill_rate_notional_array` -/
+def opEqs : P String := do
+  let eqIsPay ← pBool; let strike ← pFloat; let qty ← pFloat; let spread ← pFloat
+  let eqFreq ← pNat; let rateFreq ← pNat
+  let cur ← pOptFloat; let ff ← pOptFloat; let vd ← pInt
+  let eps ← pList pEPeriod
+  let fps ← pList pFPeriod
+  let df ← pCurve; let dfI ← pCurve; let dvd ← pCurve
+  let s := mkEqSwap eqIsPay strike qty spread eqFreq rateFreq (eps.map (·.1)) (fps.map (·.1))
+  let idx := idxOfTable dfI (eps.map (fun e => (e.1.start, e.1.stop, e.2)) ++ fps.map (fun e => (e.1.start, e.1.stop, e.2.1)))
+  let st := eqState df idx dvd cur s.eq vd
+  match fillRateNotionals eqFreq rateFreq (eqLastNotionals st) with
+  | .error e => pure ("E:" ++ e.tag)
+  | .ok arr =>
+    if arr.length < fps.length then pure "E:IndexError" else
+    let ev := applySign eqIsPay st.pv
+    let rv := floatValue df idx ff { s.rate with notionals := arr } vd
+    match eqSwapValue df idx dvd cur ff s vd with
+    | .error e => pure ("E:" ++ e.tag)
+    | .ok v => pure (showFloats ([v, ev, rv] ++ arr))
+
+/-- `CSH n payDts… eff vd alpha r` → `IborSwap.cash_settled_pv01` -/
+def opCsh : P String := do
+  let pays ← pList pInt; let eff ← pInt; let vd ← pInt; let alpha ← pFloat; let r ← pFloat
+  pure (showExcept showFloat (cashSettledPv01 pays eff vd alpha r))
+
 def step (t : List String) : String :=
   let r := match t with
     | "GEN" :: a => run opGen a
@@ -108,6 +128,9 @@ def step (t : List String) : String :=
     | "BAS" :: a => run opBas a
     | "DEP" :: a => run opDep a
     | "FRA" :: a => run opFra a
+    | "EQL" :: a => run opEql a
+    | "EQS" :: a => run opEqs a
+    | "CSH" :: a => run opCsh a
     | _ => none
   r.getD "bad-op"
 
